@@ -88,7 +88,10 @@ Before(a, b) == IF a = <<>> THEN b # <<>>
                 ELSE Head(a).f = "n" /\ Head(b).f = "n" /\ Head(a).i < Head(b).i
 
 \* an event: [p |-> path without the root, root |-> TRUE iff the first fragment was Root, val, get (sequence), first, getx, firstx]
-ValOK(n, v) == Same(n, v) \/ (n.t = "sim" /\ Same(Strip(n), v))
+\* (a gen.* leaf implements Simplify too and the code hands over its simple form: int64 for gen.Int ...; same allowance)
+ValOK(n, v) == \/ Same(n, v)
+               \/ (n.t = "sim" /\ Same(Strip(n), v))
+               \/ (n.t = "leaf" /\ n.g = 1 /\ v.t = "leaf" /\ v.g = 0 /\ LeafSame(n.a, v.a))
 GetOK(t, e) == LET n == NodeOf(t, e.p) IN
                IF ThroughSim(t, e.p)
                THEN Len(e.getx) = 1 /\ Same(Expand(n), e.getx[1]) /\ Same(Expand(n), e.firstx)
